@@ -52,7 +52,7 @@ CLAIMED = {
              "The state graphs yield schedules that the REAL threads follow through a cooperative scheduler whose pthread shim "
              "implements the same model; seeded random terminating programs run under random schedules; every call/return event "
              "is validated by TLC against PrimsAbs (windowed linearisation rules for mutual exclusion, tryLock, semaphore "
-             "conservation, manual-reset semantics incl. 'set releases all current waiters' (the scheduler reports who is blocked when set() is called), Monitor waits <= sets, time-outs, join result, failed / repeated Thread::start with an injected thread-creation failure); every schedule with <= 2-3 preemptions of the scenario and directed programs is enumerated; deadlock / no termination "
+             "conservation, manual-reset semantics incl. 'set releases all current waiters' (the scheduler reports who is blocked when set() is called), Monitor waits <= sets, time-outs, join result, failed / repeated Thread::start with an injected thread-creation failure, semaphore waits interrupted by a signal); every schedule with <= 2-3 preemptions of the scenario and directed programs is enumerated; deadlock / no termination "
              "under the fair tail / use of destroyed primitives are violations.",
         ref="5/C11", technique="TLA+ model checking incl. liveness (TLC) + schedule replay through cooperative scheduler + TLC trace validation",
         note="Trusts TLC, the scheduler/pthread shim (harness/sched), sequential consistency at yield-point granularity; 2-5 threads, programs <= 6 calls."),
@@ -89,7 +89,7 @@ CLAIMED = {
     "C19": dict(
         text="TLC checks Path.tla (lexical meaning of paths; reference relative path exists iff lexically possible) and FsModel.tla "
              "(directories, files, symlinks to an outside tree, one File handle; action properties FailUnchanged, CreateIff, "
-             "UnlinkExact, ReadBack, NoNewFileOnFail for copies under a file-size limit) exhaustively; every path string of length <= 6 and every pair of length <= 3 goes through the "
+             "UnlinkExact, ReadBack, NoNewFileOnFail for copies under a file-size limit; copy of a file onto itself; create of the root and of three threads at once) exhaustively; every path string of length <= 6 and every pair of length <= 3 goes through the "
              "real path functions and every edge of the FS state graphs plus random histories is replayed in a scratch directory "
              "under /verif/build with a sentinel outside tree; every step logs result + snapshots of both trees and is validated by "
              "TLC against the Layer-1 trace specs.",
@@ -100,7 +100,7 @@ CLAIMED = {
              "refinement of Getopt.tla = POSIX getopt_long conventions, termination) on all vectors of <= 2 words of <= 3-4 characters "
              "and 3 words of <= 2; the same vectors run on the real Process::Arguments with every string on an exact-size heap block "
              "under ASan; all command lines of length <= 5 (thorough <= 8) over {a, space, quote, backslash} and a matrix of spawn "
-             "requests (forms x stream masks x 4 environments incl. empty and '='-containing values x exit codes x payload sizes around the pipe capacity) and pairs of children alive at the same time go through the real "
+             "requests (forms x stream masks x 4 environments incl. empty and '='-containing values x exit codes x payload sizes around the pipe capacity) pairs of children alive at the same time, a join before the child's output, a multiplexed read after a select time-out go through the real "
              "Process into an echo child; option sequences, echoed argv/env, exit codes and stream contents are validated by TLC "
              "against Getopt / CmdLine / Spawn.",
         ref="5/C20", technique="TLA+ refinement model checking (TLC) + exhaustive replay of argument vectors / command lines + TLC trace validation",
@@ -146,7 +146,7 @@ CLAIMED = {
              "give schedules that the REAL Future/pool follows under the cooperative scheduler (NSTD_VERIF hooks: every atomic access, "
              "protocol read and pthread call is a scheduling point; pool size and queue capacity overridden to 1-4); random and PCT "
              "schedules cover 1-3 clients x 1-3 futures with restart / abort / idle-retirement variants, heap futures destroyed "
-             "right after join and futures with a heap-owning result destroyed without join (the destructor is the join); every start() overload (22) is called once with checked arguments and results; the pool's FastSignal is also run on its own (judged as a manual-reset event by PrimsAbs); every schedule with at most 1-3 preemptions of small FastSignal programs and small pool configurations is enumerated (preemption-bounded exploration). start/exec/done/join events are validated by TLC against FutureAbs; deadlock, non-termination, "
+             "right after join, futures with a heap-owning result destroyed without join (the destructor is the join) and a failed thread creation before two calls; every start() overload (22) is called once with checked arguments and results; the pool's FastSignal is also run on its own (judged as a manual-reset event by PrimsAbs); every schedule with at most 1-3 preemptions of small FastSignal programs and small pool configurations is enumerated (preemption-bounded exploration). start/exec/done/join events are validated by TLC against FutureAbs; deadlock, non-termination, "
              "any pthread call on a destroyed primitive and sanitizer reports are violations.",
         ref="5/C10", technique="TLA+ model checking incl. liveness (TLC, PlusCal) + schedule replay through cooperative scheduler with hooks + TLC trace validation",
         note="Sequential consistency at scheduling-point granularity; configurations beyond 2 clients x 2 futures only by random / PCT / preemption-bounded schedules; the pool constants are reduced through the NSTD_VERIF hook (capacity 1-4, 1-3 workers)."),
